@@ -179,6 +179,14 @@ Definition C13_restart_repairs_storage_todo : Prop :=
     step (run_state step init_state ops) (ORestart mr) = (st', o) -> o_res o = ROk -> st_live st' = Some m ->
     s_rules (st_store st') = map_vals sv (c_rules (m_conf m)).
 
+(* the store set (RuleManager's StoreSetInformer) is an input of client updates only (`UWithStores`): it can make
+   adjustRule refuse a rule that matches no store, never change what an accepted update does; the load path
+   (`initialize`, every ORestart / leader change) does not have it at all since fix f88d4e2, so the restart
+   theorems above hold whatever becomes of the stores after a rule was accepted *)
+Theorem C13_store_check_only_refuses :
+  forall c um u p, make_patch c (UWithStores um u) = Some p -> make_patch c u = Some p.
+Proof. exact store_check_only_refuses. Qed.
+
 (* a failed Initialize retried on the same manager is a fresh start (fix 7c6ce3c): the earlier attempt leaves
    nothing behind in the manager; what it may have done to the storage are loadRules' repairs *)
 Theorem C13_retried_initialize_is_a_fresh_start :
@@ -233,6 +241,7 @@ Print Assumptions C13_storage_mirrors_served.
 Print Assumptions C13_accepted_update_reload_equal.
 Print Assumptions C13_retry_converges.
 Print Assumptions C13_paged_load_complete.
+Print Assumptions C13_store_check_only_refuses.
 Print Assumptions C13_updates_are_one_locked_section.
 Print Assumptions C13_readers_are_one_locked_section.
 Print Assumptions C13_load_by_prefix_all_with_prefix.
